@@ -195,11 +195,32 @@ fn judge(t: i32, word: &[u8], route: &str, out: &Outcome, read: &[(&str, Pairs)]
     }
 }
 
+/// The consuming bulk route: all pairs of an all-success history in one call.
+fn write_bulk<W: std::io::Write + std::io::Seek>(w: Writer<W>, n: usize, t: i32, seed: u64) -> Vec<bool> {
+    let shapes: Vec<Shape> = (0..n).map(|call| tagged_shape(t, call, &mut Rng::derive(seed, &[tag("c08-shape"), t as u64, call as u64]))).collect();
+    let rows: Vec<Record> = (0..n).map(good_row).collect();
+    let ok = for_type!(t, T => {
+        use std::convert::TryFrom;
+        let typed: Vec<T> = shapes.iter().map(|s| T::try_from(crate::shapes::clone_shape(s)).ok().expect("harness: type table")).collect();
+        w.write_shapes_and_records(typed.iter().zip(rows.iter())).is_ok()
+    });
+    vec![ok; n]
+}
+
 fn run_cursor(t: i32, other: i32, word: &[u8], seed: u64, case: &str, rep: &mut Report) {
     let (a, b, c) = (Dest::new(), Dest::new(), Dest::new());
+    // all-success histories alternate between the per-pair call and the consuming bulk route
+    let bulk = word.iter().all(|l| *l == OK) && word.len() % 2 == 0 && !word.is_empty();
+    if bulk {
+        rep.count("histories_written_through_write_shapes_and_records(bulk)", 1);
+    }
     let res = panicmon::catch(|| {
         let w = Writer::new(ShapeWriter::with_shx(a.clone(), b.clone()), table_builder().build_with_dest(c.clone()));
-        write_history(w, word, t, other, seed)
+        if bulk {
+            write_bulk(w, word.len(), t, seed)
+        } else {
+            write_history(w, word, t, other, seed)
+        }
     });
     let results = match res {
         Ok(r) => r,
